@@ -241,6 +241,36 @@ func init() {
 		}
 		return c.ret(TupleV{term.Ite(pok, py, y), term.Ite(pok, pm, m), term.Ite(pok, pd, d)})
 	}
+	civil := func(ex *Exec, c *CallCtx) (y, m, d *term.Term) {
+		t := c.Args[0].(*StructV)
+		pok, py, pm, pd := provenance(t)
+		if ex.decideCond(c.St, pok) == 1 {
+			return py, pm, pd
+		}
+		ld, _ := ex.localDays(c.St, t)
+		fy, fm, fd := ex.freshYMD(c.St, ld)
+		if pok.IsFalse() {
+			return fy, fm, fd
+		}
+		return term.Ite(pok, py, fy), term.Ite(pok, pm, fm), term.Ite(pok, pd, fd)
+	}
+	Stubs["(time.Time).Year"] = func(ex *Exec, c *CallCtx) []*callResult { y, _, _ := civil(ex, c); return c.ret(y) }
+	Stubs["(time.Time).Month"] = func(ex *Exec, c *CallCtx) []*callResult { _, m, _ := civil(ex, c); return c.ret(m) }
+	Stubs["(time.Time).Day"] = func(ex *Exec, c *CallCtx) []*callResult { _, _, d := civil(ex, c); return c.ret(d) }
+	Stubs["(time.Time).Zone"] = func(ex *Exec, c *CallCtx) []*callResult {
+		t := c.Args[0].(*StructV)
+		return c.ret(TupleV{Str(""), ex.locOffset(c.St, t.F[2])})
+	}
+	Stubs["(time.Time).UTC"] = func(ex *Exec, c *CallCtx) []*callResult {
+		t := c.Args[0].(*StructV)
+		g := ex.Prog.ImportedPackage("time").Var("UTC")
+		utc := c.St.H.Load(PtrV{Obj: ex.globalObj(c.St, g)})
+		off := ex.locOffset(c.St, t.F[2])
+		if off.IsConst() && off.Val == 0 {
+			return c.ret(&StructV{F: []Value{t.F[0], t.F[1], utc, t.F[3]}})
+		}
+		return c.ret(timeV(t.F[0].(*term.Term), t.F[1].(*term.Term), utc))
+	}
 	Stubs["(time.Time).IsZero"] = func(ex *Exec, c *CallCtx) []*callResult {
 		t := c.Args[0].(*StructV)
 		byOrd := term.And(term.Eq(t.F[0].(*term.Term), c64(0)), term.Eq(t.F[1].(*term.Term), c64(0)))
